@@ -2,76 +2,164 @@
    removes nothing else.  Only theorem statements, each closed by [exact] and
    followed by Print Assumptions.
 
-   [robsd_clean] (Inv/PurgeDefs.v) is the model of robsd-clean + util.sh purge
+   [robsd_clean_x] (Inv/PurgeDefs.v) is the model of robsd-clean + util.sh purge
    on an abstract tree (entries = path below the invocation root + node), with
-   the listing model of C15 inside; the whitelist, the +1 compensation, the
-   tr characters (util.sh) and the count default, the exit status for retention
-   0, the keep-attic value and the messages (robsd-clean) are regenerated from
-   the sources (gen/Gen_Util.v).  The specification (Inv/PurgeSpec.v) speaks
-   about the tree before, the tree after, the retention [n] = count argument or
-   configured keep, and the invocation that is really running ([running], given
-   independently of the lock file's spelling).
+   the listing model of C15 inside and WITH the failures of mkdir and cp: when
+   attic, attic/YYYY, attic/YYYY/MM or the destination is something else than
+   a directory the loop of purge ends there (set -e in a pipeline), the victim
+   stays in the root without its logs and robsd-clean exits 0.  This is the
+   function the driver runs against the real script.  The whitelist, the +1
+   compensation, the tr characters (util.sh) and the count default, the exit
+   status for retention 0, the keep-attic value and the messages (robsd-clean)
+   are regenerated from the sources (gen/Gen_Util.v).  The specification
+   (Inv/PurgeSpec.v) speaks about the tree before, the tree after, the
+   retention [n] = count argument or configured keep, and the invocation that
+   is really running ([running], given independently of the lock file).
 
    Quantifiers: every well-formed tree (any number of invocations, several per
    day, stray files and directories, any attic content), every root string,
    every lock file content, every keep / count / keep-attic, every qsort.
 
-   KEPT SET.  C16_kept_set_total says what the model keeps for EVERY lock file.
-   The statement of the property - invocation (tree after) v <-> In v (kept_of
-   names running n) - holds under the guard [lock_consistent]
-   (C16_kept_set_partial); the guard is discharged for the lock file a new
-   invocation writes (C16_lock_consistent_discharged).  Outside the guard, for
-   EVERY lock whose first line is not the printed path of an invocation (stale,
-   hidden, elsewhere, or the running invocation spelled differently as
-   `robsd -r` writes it when robsddir is not canonical) the n-1 newest are kept
-   and a running invocation that is not among them is archived
-   (C16_kept_set_outside_guard; C16_kept_set_refuted are two witnesses; known
-   findings clean-stale-lock-keeps-one-less, clean-lock-spelled-differently).
-
-   ATTIC.  C16_attic_complete_partial: one destination per removed invocation,
-   every whitelisted entry outside tmp arrives there with its content, nothing
-   else is new - under the guard that the destinations of different
-   invocations are apart (C16_attic_names: true for names Y-M-D.X, which is
-   what build_id hands out).  C16_attic_complete_refuted: directories named a-a
-   and a lose a report.  C16_oracle_accepts_model ties the executable oracle
-   that the harness applies to the real robsd-clean to these theorems.
+   GUARDS, each with a witness outside it:
+   [completes] - every victim reaches the attic.  Discharged whenever the places
+   where the attic directories go hold directories or nothing
+   (C16_completes_when_attic_clear); outside: C16_attic_blocked_refuted, and
+   what still holds then: C16_always.
+   [lock_consistent] - the lock file names the running invocation by the path
+   robsd-ls prints.  Discharged for the lock lock_acquire writes
+   (C16_lock_consistent_discharged); outside: C16_kept_set_outside_guard,
+   C16_kept_set_refuted (known findings clean-stale-lock-keeps-one-less,
+   clean-lock-spelled-differently).
+   NEWEST.  The property says "the newest N".  The code keeps the N greatest
+   NAMES (byte order).  With the invocations listed by AGE the statement holds
+   exactly when that list descends by name (C16_newest_by_age_partial); this is
+   so in every state reachable by runs and cleaning on a day with at most nine
+   invocations, build_id being the third body (C16_newest_are_most_recent, over
+   Inv/NameMono.v); it fails from the tenth invocation of a day on
+   (C16_newest_is_name_order_refuted; known finding newest-is-name-order-not-age).
+   [apart] / date-shaped names for the attic clauses (C16_attic_names,
+   C16_names_are_date_shaped: true for what build_id hands out;
+   C16_attic_complete_refuted: a-a and a).
 
    This claim is PARTIAL in a second sense: the tie runs bash and GNU userland
    behind stand-ins instead of ksh and the BSD userland. *)
 From Coq Require Import String.
-From Robsd Require Import Inv.PurgeSpec Inv.PurgeProofs Inv.LsProofs Inv.PurgeComplete Inv.PurgeOracle Inv.PurgeTotal Inv.NameDefs.
+From Robsd Require Import Inv.PurgeSpec Inv.PurgeProofs Inv.LsProofs Inv.PurgeComplete Inv.PurgeOracle Inv.PurgeTotal
+  Inv.NameDefs Inv.PurgeBlocked Inv.PurgeFaithful Inv.NameMono Inv.NameTie Inv.LockSrc Inv.LockTie Inv.NameNewDefs.
+From RobsdGen Require Import Gen_Util.
 Local Open Scope N_scope.
 
 (* retention 0 (no count or count 0, and keep 0 or unset): nothing happens *)
 Theorem C16_zero_is_noop : forall sortf rootstr keep_conf count ka lock f,
   (keep_conf = 0%nat /\ (count = None \/ count = Some 0%nat)) ->
-  robsd_clean sortf rootstr keep_conf count ka lock f = (0, [], f).
+  robsd_clean_x sortf rootstr keep_conf count ka lock f = (0, [], f).
 Proof.
   exact (fun sortf rootstr keep_conf count ka lock f H =>
-    final_zero sortf rootstr f lock keep_conf count ka (proj2 (effective_keep_zero keep_conf count) H)).
+    final_zero_x sortf rootstr f lock keep_conf count ka (proj2 (effective_keep_zero keep_conf count) H)).
 Qed.
 Print Assumptions C16_zero_is_noop.
 
-(* the kept set: with [names] the invocations newest first, the root afterwards
-   holds exactly [kept_of names running n]: the running invocation, if any,
-   plus the newest others, n in total or all of them when there are no more *)
+(* the kept set, "newest" read as the code reads it (greatest name): with
+   [names] the invocations in descending name order, the root afterwards holds
+   exactly [kept_of names running n]: the running invocation, if any, plus the
+   first others, n in total or all of them when there are no more *)
 Theorem C16_kept_set_partial : forall sortf rootstr f lock running keep_conf count ka,
   sorts sortf -> wf_tree f -> lock_consistent rootstr lock running f ->
   effective_keep keep_conf count <> 0%nat ->
+  (ka = true -> completes sortf rootstr keep_conf count lock f) ->
   exists names, newest_first f names /\
     let n := effective_keep keep_conf count in
-    let after := snd (robsd_clean sortf rootstr keep_conf count ka lock f) in
+    let after := snd (robsd_clean_x sortf rootstr keep_conf count ka lock f) in
     (forall v, invocation after v <-> In v (kept_of names running n)) /\
     length (kept_of names running n) = Nat.min n (length names) /\
     (forall r, running = Some r -> In r (kept_of names running n)) /\
     (forall v, In v (kept_of names running n) -> In v names).
 Proof.
   exact (fun sortf rootstr f lock running keep_conf count ka Hs =>
-    final_kept_set sortf Hs rootstr f lock running keep_conf count ka).
+    final_kept_set_x sortf Hs rootstr f lock running keep_conf count ka).
 Qed.
 Print Assumptions C16_kept_set_partial.
 
-(* without the guard: (1) three invocations, a lock file naming a directory
+(* NEWEST = most recently created.  [ages] lists the invocations by age, newest
+   first (age_list: exactly the invocations, each once).  Under the guard that
+   this list descends by name the root afterwards holds the running invocation
+   plus the most recently created others, n in total *)
+Theorem C16_newest_by_age_partial : forall sortf rootstr f lock running keep_conf count ka ages,
+  sorts sortf -> wf_tree f -> lock_consistent rootstr lock running f ->
+  effective_keep keep_conf count <> 0%nat ->
+  (ka = true -> completes sortf rootstr keep_conf count lock f) ->
+  age_list f ages -> StronglySorted (fun a b => blt b a) ages ->
+  let n := effective_keep keep_conf count in
+  let after := snd (robsd_clean_x sortf rootstr keep_conf count ka lock f) in
+  (forall v, invocation after v <-> In v (kept_of ages running n)) /\
+  length (kept_of ages running n) = Nat.min n (length ages).
+Proof. exact kept_by_age. Qed.
+Print Assumptions C16_newest_by_age_partial.
+
+(* outside that guard: the second ... tenth invocation of 2024-03-05 finished,
+   the eleventh running (consistent lock), retention 9, every victim archived.
+   By age the tenth is kept and the second goes; the code archives the tenth -
+   the newest finished invocation, its report is in attic/2024/03/05.10 - and
+   keeps the second.  The age oracle rejects the result, the name-order oracle
+   accepts it.  Replayed: findings/D23_build_id_monotone.md (b),
+   corpus/C16/10_tenth_of_a_day_keep9.json.  Second part: the smallest instance
+   (ninth and tenth, nothing running, retention 1: the tenth is archived) *)
+Theorem C16_newest_is_name_order_refuted :
+  (let after := snd (robsd_clean_x_exec (bs "/r") 9 None true tenth_lock tenth_tree) in
+   wf_tree tenth_tree /\ age_list tenth_tree tenth_ages /\
+   lock_consistent (bs "/r") tenth_lock (Some (bs "2024-03-05.11")) tenth_tree /\
+   completes isort (bs "/r") 9 None tenth_lock tenth_tree /\
+   ~ StronglySorted (fun a b => blt b a) tenth_ages /\
+   In (bs "2024-03-05.10") (kept_of tenth_ages (Some (bs "2024-03-05.11")) 9) /\
+   ~ In (bs "2024-03-05.2") (kept_of tenth_ages (Some (bs "2024-03-05.11")) 9) /\
+   invocation_b after (bs "2024-03-05.10") = false /\
+   invocation_b after (bs "2024-03-05.2") = true /\
+   ent_in (mkfs [bs "attic"; bs "2024"; bs "03"; bs "05.10"; bs "report"] (FFile (bs "report of run 10"))) after = true /\
+   spec_ok_clean_age tenth_ages (Some (bs "2024-03-05.11")) 9 true 0 tenth_tree after = false /\
+   spec_ok_clean (Some (bs "2024-03-05.11")) 9 true 0 tenth_tree after = true) /\
+  (let f := day_dirs ["9"%string; "10"%string] in
+   let ages := [bs "2024-03-05.10"; bs "2024-03-05.9"] in
+   let after := snd (robsd_clean_x_exec (bs "/r") 1 None true None f) in
+   wf_tree f /\ age_list f ages /\ kept_of ages None 1 = [bs "2024-03-05.10"] /\
+   invocations_desc after = [bs "2024-03-05.9"] /\
+   spec_ok_clean_age ages None 1 true 0 f after = false).
+Proof. exact (conj newest_is_name_order_witness newest_is_name_order_small). Qed.
+Print Assumptions C16_newest_is_name_order_refuted.
+
+(* inside the guard by construction: every state reached from a root whose
+   invocations are older than the day (names below DATE.) by runs (build_id =
+   largest suffix in use + 1, then build_init) and cleanings (robsd_clean_x with
+   any keep / count / keep-attic, while the latest invocation runs or while
+   nothing runs), at most nine runs: the invocations by AGE - those born today
+   in reverse order of birth, then the older ones - are the invocations in
+   descending name order, and a further cleaning keeps the running one plus the
+   most recently created *)
+Theorem C16_newest_are_most_recent : forall rootstr d start base f0 y m dd,
+  nonl rootstr -> nonul rootstr -> d = y ++ 45 :: m ++ 45 :: dd ->
+  dashfree y -> dashfree m -> (dashfree dd /\ ~ In 46 dd /\ nonl d /\ nonul d) -> hidden d = false ->
+  wf_tree f0 ->
+  (forall e x, In e f0 -> f_path e = [x] -> prefixb (d ++ [46]) x = false) ->
+  (forall v, invocation f0 v -> blt v (d ++ [46])) ->
+  forall ops kc cnt ka during,
+  (runs_of ops <= 9)%nat -> effective_keep kc cnt <> 0%nat ->
+  let st := hrun rootstr d start base f0 ops in
+  let lock := hlock rootstr (snd st) during in
+  let running := hrunning (snd st) during in
+  (ka = true -> completes isort rootstr kc cnt lock (fst st)) ->
+  let n := effective_keep kc cnt in
+  let after := snd (robsd_clean_x_exec rootstr kc cnt ka lock (fst st)) in
+  let ages := ages_of f0 (fst st) (snd st) in
+  ages = invocations_desc (fst st) /\
+  (forall v, invocation after v <-> In v (kept_of ages running n)) /\
+  length (kept_of ages running n) = Nat.min n (length ages).
+Proof.
+  exact (fun rootstr d start base f0 y m dd H1 H2 H3 H4 H5 H6 H7 H8 H9 H10 ops kc cnt ka during Hn Hne Hc =>
+    conj (proj2 (proj2 (reach_ages rootstr d start base f0 H1 H2 y m dd H3 H4 H5 H6 H7 H8 H9 H10 ops Hn)))
+         (kept_most_recent rootstr d start base f0 H1 H2 y m dd H3 H4 H5 H6 H7 H8 H9 H10 ops kc cnt ka during Hn Hne Hc)).
+Qed.
+Print Assumptions C16_newest_are_most_recent.
+
+(* without the lock guard: (1) three invocations, a lock file naming a directory
    that does not exist, retention 2 - one invocation is left; (2) the lock
    names the running invocation 2024-01-02.1 as /r//2024-01-02.1 while
    robsd-ls prints /r/2024-01-02.1, retention 2 - the running invocation is
@@ -79,11 +167,11 @@ Print Assumptions C16_kept_set_partial.
 Theorem C16_kept_set_refuted :
   (exists f lock, wf_tree f /\ running_builddir lock = Some (bs "/r/2020-02-02.7") /\
      invocations_desc f = [bs "2024-01-02.3"; bs "2024-01-02.2"; bs "2024-01-02.1"] /\
-     invocations_desc (snd (robsd_clean_exec (bs "/r") 2 None true lock f)) = [bs "2024-01-02.3"]) /\
+     invocations_desc (snd (robsd_clean_x_exec (bs "/r") 2 None true lock f)) = [bs "2024-01-02.3"]) /\
   (exists f lock, wf_tree f /\ running_builddir lock = Some (bs "/r//2024-01-02.1") /\
      invocations_desc f = [bs "2024-01-02.3"; bs "2024-01-02.2"; bs "2024-01-02.1"] /\
-     invocations_desc (snd (robsd_clean_exec (bs "/r") 2 None true lock f)) = [bs "2024-01-02.3"]).
-Proof. exact kept_set_refuted_witness. Qed.
+     invocations_desc (snd (robsd_clean_x_exec (bs "/r") 2 None true lock f)) = [bs "2024-01-02.3"]).
+Proof. exact kept_set_refuted_witness_x. Qed.
 Print Assumptions C16_kept_set_refuted.
 
 (* removed exactly, nothing else touched, the attic - all relative to the kept
@@ -94,10 +182,11 @@ Print Assumptions C16_kept_set_refuted.
 Theorem C16_removed_attic_rest_partial : forall sortf rootstr f lock running keep_conf count ka,
   sorts sortf -> wf_tree f -> lock_consistent rootstr lock running f ->
   effective_keep keep_conf count <> 0%nat ->
+  (ka = true -> completes sortf rootstr keep_conf count lock f) ->
   exists names, newest_first f names /\
     let n := effective_keep keep_conf count in
     let kept := kept_of names running n in
-    let after := snd (robsd_clean sortf rootstr keep_conf count ka lock f) in
+    let after := snd (robsd_clean_x sortf rootstr keep_conf count ka lock f) in
     (* C16_removed_exact: nothing of an invocation that is not kept is left in the root *)
     (forall v e, invocation f v -> ~ In v kept -> In e after -> under [v] (f_path e) = false) /\
     (* C16_nothing_else_touched: every entry outside the attic and outside the
@@ -120,55 +209,127 @@ Theorem C16_removed_attic_rest_partial : forall sortf rootstr f lock running kee
                                  (forall x, In x f' -> In x f \/ under [name_attic] (f_path x) = true))).
 Proof.
   exact (fun sortf rootstr f lock running keep_conf count ka Hs =>
-    final_rest sortf Hs rootstr f lock running keep_conf count ka).
+    final_rest_x sortf Hs rootstr f lock running keep_conf count ka).
 Qed.
 Print Assumptions C16_removed_attic_rest_partial.
 
-(* ---- the kept set without any guard: for every lock file the root afterwards
-   holds exactly the invocations purge did not select - the listing minus the
-   entry whose printed path is the lock's first line, from position n (n+1
-   when the lock file has no usable first line) ---- *)
+(* ---- [completes]: met whenever, for every invocation v, nothing but
+   directories (or nothing at all) sits at attic, attic/YYYY, attic/YYYY/MM and
+   attic/YYYY/MM/DD.X - for names of the shape Y-M-D ---- *)
+Theorem C16_completes_when_attic_clear : forall sortf rootstr f lock running keep_conf count,
+  sorts sortf -> wf_tree f -> lock_consistent rootstr lock running f ->
+  (forall v, invocation f v -> date_shaped v) ->
+  (forall v p, invocation f v -> attic_path_of v p -> nondir_at p f = false) ->
+  completes sortf rootstr keep_conf count lock f.
+Proof.
+  exact (fun sortf rootstr f lock running keep_conf count Hs =>
+    completes_when_clear sortf Hs rootstr f lock running keep_conf count).
+Qed.
+Print Assumptions C16_completes_when_attic_clear.
+
+(* outside: a plain file attic/2024, `robsd-clean 1` on three invocations.  Exit
+   status 0, no message; all three invocations are still in the root; the first
+   victim has lost its log and its tmp and kept its report; the second victim is
+   untouched; the file is untouched; the oracle rejects.  Replayed on the real
+   script, corpus/C16/20_attic_year_is_a_file.json *)
+Theorem C16_attic_blocked_refuted :
+  let r := robsd_clean_x_exec (bs "/r") 0 (Some 1%nat) true None blocked_tree in
+  wf_tree blocked_tree /\ ~ completes isort (bs "/r") 0 (Some 1%nat) None blocked_tree /\
+  fst r = (0, []) /\
+  invocations_desc (snd r) = [bs "2024-01-02.3"; bs "2024-01-02.2"; bs "2024-01-02.1"] /\
+  has_path [bs "2024-01-02.2"; bs "001-a.log"] (snd r) = false /\
+  has_path [bs "2024-01-02.2"; bs "tmp"] (snd r) = false /\
+  ent_in (mkfs [bs "2024-01-02.2"; bs "report"] (FFile (bs "r2"))) (snd r) = true /\
+  ent_in (mkfs [bs "2024-01-02.1"; bs "001-a.log"] (FFile (bs "l1"))) (snd r) = true /\
+  ent_in (mkfs [bs "attic"; bs "2024"] (FFile (bs "not a directory"))) (snd r) = true /\
+  spec_ok_clean None 1 true 0 blocked_tree (snd r) = false.
+Proof. exact attic_blocked_witness. Qed.
+Print Assumptions C16_attic_blocked_refuted.
+
+(* what holds for EVERY tree, lock and retention, blocked or not: exit status
+   0; nothing new outside the attic; nothing outside the attic and outside the
+   victims is removed or changed *)
+Theorem C16_always : forall sortf rootstr keep_conf count ka lock f,
+  let after := snd (robsd_clean_x sortf rootstr keep_conf count ka lock f) in
+  let vs := victim_list sortf rootstr keep_conf count lock f in
+  fst (fst (robsd_clean_x sortf rootstr keep_conf count ka lock f)) = 0 /\
+  (forall e, In e after -> In e f \/ (ka = true /\ under [name_attic] (f_path e) = true)) /\
+  (forall e, In e f -> under [name_attic] (f_path e) = false ->
+             (forall v, In v vs -> under [v] (f_path e) = false) -> In e after).
+Proof. exact clean_x_always. Qed.
+Print Assumptions C16_always.
+
+(* existing attic content: every entry that was below the attic and not at or
+   below the destination of a removed invocation is still there afterwards with
+   the same node - the same bytes *)
+Theorem C16_old_attic_content_preserved : forall sortf rootstr f lock running keep_conf count,
+  sorts sortf -> wf_tree f -> lock_consistent rootstr lock running f ->
+  effective_keep keep_conf count <> 0%nat ->
+  completes sortf rootstr keep_conf count lock f ->
+  exists names, newest_first f names /\
+    let kept := kept_of names running (effective_keep keep_conf count) in
+    let after := snd (robsd_clean_x sortf rootstr keep_conf count true lock f) in
+    forall e, In e f -> under [name_attic] (f_path e) = true ->
+      (forall v, invocation f v -> ~ In v kept -> under (attic_dst v) (f_path e) = false) ->
+      In e after.
+Proof.
+  exact (fun sortf rootstr f lock running keep_conf count Hs =>
+    old_attic_preserved sortf Hs rootstr f lock running keep_conf count).
+Qed.
+Print Assumptions C16_old_attic_content_preserved.
+
+(* ---- the kept set without the lock guard: for every lock file the root
+   afterwards holds exactly the invocations purge did not select - the listing
+   minus the entry whose printed path is the lock's first line, from position n
+   (n+1 when the lock file has no usable first line) ---- *)
 Theorem C16_kept_set_total : forall sortf rootstr f lock keep_conf count ka,
   sorts sortf -> wf_tree f -> effective_keep keep_conf count <> 0%nat ->
+  (ka = true -> completes sortf rootstr keep_conf count lock f) ->
   exists names, newest_first f names /\
     let n := effective_keep keep_conf count in
-    let after := snd (robsd_clean sortf rootstr keep_conf count ka lock f) in
+    let after := snd (robsd_clean_x sortf rootstr keep_conf count ka lock f) in
     forall v, invocation after v <->
               In v names /\ ~ In v (victim_names_total rootstr names (running_builddir lock) n).
 Proof.
   exact (fun sortf rootstr f lock keep_conf count ka Hs =>
-    kept_set_total sortf Hs rootstr f lock keep_conf count ka).
+    kept_set_total_x sortf Hs rootstr f lock keep_conf count ka).
 Qed.
 Print Assumptions C16_kept_set_total.
 
 (* outside the guard, for ALL lock files whose first line is not the printed
-   path of an invocation of the root: the n-1 newest invocations are left, and
+   path of an invocation of the root: the n-1 first invocations are left, and
    an invocation r - running or not - that is not among them is gone *)
 Theorem C16_kept_set_outside_guard : forall sortf rootstr f lock b keep_conf count ka,
   sorts sortf -> wf_tree f -> effective_keep keep_conf count <> 0%nat ->
+  (ka = true -> completes sortf rootstr keep_conf count lock f) ->
   running_builddir lock = Some b -> (forall v, invocation f v -> mkpath rootstr v <> b) ->
   exists names, newest_first f names /\
     let n := effective_keep keep_conf count in
-    let after := snd (robsd_clean sortf rootstr keep_conf count ka lock f) in
+    let after := snd (robsd_clean_x sortf rootstr keep_conf count ka lock f) in
     (forall v, invocation after v <-> In v (firstn (n - 1) names)) /\
     length (firstn (n - 1) names) = Nat.min (n - 1) (length names).
 Proof.
   exact (fun sortf rootstr f lock b keep_conf count ka Hs =>
-    kept_set_unlisted_lock sortf Hs rootstr f lock b keep_conf count ka).
+    kept_set_unlisted_lock_x sortf Hs rootstr f lock b keep_conf count ka).
 Qed.
 Print Assumptions C16_kept_set_outside_guard.
 
-(* the guard is met by the producer: robsd computes BUILDDIR as
-   "${ROBSDDIR}/$(build_id ...)" and lock_acquire writes that string and a
-   newline into .running - exactly the path robsd-ls prints; and by the absence
-   of a lock when nothing runs.  (Not met: a lock left behind by a crash, and
-   `-r <dir>` with a robsddir that readlink -f respells.) *)
+(* the lock guard is met by the producer: robsd computes BUILDDIR as
+   "${ROBSDDIR}/$(build_id ...)" and lock_acquire - the function whose
+   statements are read out of util.sh (Inv/LockTie.v) - leaves exactly
+   [lock_written] of that string in .running: the path robsd-ls prints; and by
+   the absence of a lock when nothing runs.  (Not met: a lock left behind by a
+   crash, and `-r <dir>` with a robsddir that readlink -f respells.) *)
 Theorem C16_lock_consistent_discharged : forall rootstr f id,
   (nonl rootstr -> nonul rootstr -> nonl id -> nonul id -> invocation f id ->
    lock_consistent rootstr (lock_written (mkpath rootstr id)) (Some id) f) /\
-  lock_consistent rootstr None None f.
+  lock_consistent rootstr None None f /\
+  (forall root, snd (run_lock lock_acquire_src root None (mkpath rootstr id)) = lock_written (mkpath rootstr id)).
 Proof.
-  exact (fun rootstr f id => conj (lock_consistent_new_invocation rootstr f id) (lock_consistent_no_lock rootstr f)).
+  exact (fun rootstr f id => conj (lock_consistent_new_invocation rootstr f id)
+           (conj (lock_consistent_no_lock rootstr f)
+                 (fun root => eq_trans (f_equal snd (lock_acquire_is_source root None (mkpath rootstr id)))
+                                       (lock_written_is_acquire (mkpath rootstr id))))).
 Qed.
 Print Assumptions C16_lock_consistent_discharged.
 
@@ -182,11 +343,12 @@ Print Assumptions C16_lock_consistent_discharged.
 Theorem C16_attic_complete_partial : forall sortf rootstr f lock running keep_conf count,
   sorts sortf -> wf_tree f -> lock_consistent rootstr lock running f ->
   effective_keep keep_conf count <> 0%nat ->
+  completes sortf rootstr keep_conf count lock f ->
   (forall v w, invocation f v -> invocation f w -> v <> w -> apart v w) ->
   exists names B, newest_first f names /\
     let n := effective_keep keep_conf count in
     let kept := kept_of names running n in
-    let after := snd (robsd_clean sortf rootstr keep_conf count true lock f) in
+    let after := snd (robsd_clean_x sortf rootstr keep_conf count true lock f) in
     (forall v, B v = attic_dst v \/ B v = attic_dst v ++ [v]) /\
     (forall v e0, invocation f v -> ~ In v kept -> In e0 f ->
        under [v] (f_path e0) = true -> under [v; name_tmp] (f_path e0) = false ->
@@ -198,7 +360,7 @@ Theorem C16_attic_complete_partial : forall sortf rootstr f lock running keep_co
                            (created_parent v e \/ from_victim_at (B v) f v e)).
 Proof.
   exact (fun sortf rootstr f lock running keep_conf count Hs =>
-    final_attic_complete sortf Hs rootstr f lock running keep_conf count).
+    final_attic_complete_x sortf Hs rootstr f lock running keep_conf count).
 Qed.
 Print Assumptions C16_attic_complete_partial.
 
@@ -208,55 +370,79 @@ Print Assumptions C16_attic_complete_partial.
 Theorem C16_attic_complete_refuted :
   exists f, wf_tree f /\
     In (mkfs [bs "a-a"; bs "report"] (FFile (bs "1"))) f /\
-    let after := snd (robsd_clean_exec (bs "/r") 1 None true None f) in
+    let after := snd (robsd_clean_x_exec (bs "/r") 1 None true None f) in
     invocations_desc after = [bs "z"] /\
     forallb (fun e => negb (node_beq (f_node e) (FFile (bs "1")))) after = true /\
     ent_in (mkfs [bs "attic"; bs "a"; bs "a"; bs "report"] (FFile (bs "2"))) after = true /\
     spec_ok_clean None 1 true 0 f after = false.
-Proof. exact attic_complete_refuted. Qed.
+Proof. exact attic_complete_refuted_x. Qed.
 Print Assumptions C16_attic_complete_refuted.
 
 (* YYYY-MM-DD.X -> attic/YYYY/MM/DD.X for every name Y-M-D of three non-empty
    parts free of '-' and '/'; two different such names have destinations that
-   are apart; the names build_id hands out on a date Y-M-D are of that form *)
+   are apart *)
 Theorem C16_attic_names :
   (forall y m d, dashfree y -> dashfree m -> dashfree d ->
      attic_dst (y ++ 45 :: m ++ 45 :: d) = [name_attic; y; m; d]) /\
-  (forall v w, date_shaped v -> date_shaped w -> v <> w -> apart v w) /\
-  (forall y m d k, dashfree y -> dashfree m -> dashfree d ->
-     date_shaped (with_suffix (y ++ 45 :: m ++ 45 :: d) k)).
-Proof. exact (conj attic_dst_date (conj date_shaped_apart date_shaped_with_suffix)). Qed.
+  (forall v w, date_shaped v -> date_shaped w -> v <> w -> apart v w).
+Proof. exact (conj attic_dst_date date_shaped_apart). Qed.
 Print Assumptions C16_attic_names.
 
-(* ---- the oracle the harness applies to the trees the real robsd-clean leaves
-   behind accepts every result of the model: kept set, removed exactly, nothing
+(* ... and the name build_id (as util.sh has it) hands out on a date Y-M-D, in
+   any root, is of that shape *)
+Theorem C16_names_are_date_shaped : forall y m dd start base tree,
+  dashfree y -> dashfree m -> dashfree dd ->
+  date_shaped (build_id_current (y ++ 45 :: m ++ 45 :: dd) start base tree).
+Proof.
+  exact (fun y m dd start base tree Hy Hm Hd =>
+    eq_ind_r date_shaped (date_shaped_with_suffixN y m dd _ Hy Hm Hd)
+             (proj1 (proj2 (current_above (y ++ 45 :: m ++ 45 :: dd) start base tree)))).
+Qed.
+Print Assumptions C16_names_are_date_shaped.
+
+(* ---- the oracles the harness applies to the trees the real robsd-clean leaves
+   behind accept every result of the model: kept set, removed exactly, nothing
    else touched, attic content sound and complete, retention 0 a no-op.  Attic
-   clauses: for invocation names Y-M-D and no entry v/v/tmp/... ---- *)
+   clauses: for invocation names Y-M-D and no entry v/v/tmp/...  The age oracle
+   (the one the harness applies, with the order in which it made the
+   invocations): under the guard that this order descends by name ---- *)
 Theorem C16_oracle_accepts_model : forall sortf rootstr f lock running keep_conf count ka,
   sorts sortf -> wf_tree f -> lock_consistent rootstr lock running f ->
+  (ka = true -> completes sortf rootstr keep_conf count lock f) ->
   (ka = true -> forall v, invocation f v -> date_shaped v) ->
   (ka = true -> no_nested_tmp f) ->
-  let r := robsd_clean sortf rootstr keep_conf count ka lock f in
+  let r := robsd_clean_x sortf rootstr keep_conf count ka lock f in
   spec_ok_clean running (effective_keep keep_conf count) ka (fst (fst r)) f (snd r) = true.
 Proof.
   exact (fun sortf rootstr f lock running keep_conf count ka Hs =>
-    oracle_accepts_model sortf Hs rootstr f lock running keep_conf count ka).
+    oracle_accepts_model_x sortf Hs rootstr f lock running keep_conf count ka).
 Qed.
 Print Assumptions C16_oracle_accepts_model.
+
+Theorem C16_oracle_age_accepts_model : forall sortf rootstr f lock running keep_conf count ka ages,
+  sorts sortf -> wf_tree f -> lock_consistent rootstr lock running f ->
+  (ka = true -> completes sortf rootstr keep_conf count lock f) ->
+  (ka = true -> forall v, invocation f v -> date_shaped v) ->
+  (ka = true -> no_nested_tmp f) ->
+  age_list f ages -> StronglySorted (fun a b => blt b a) ages ->
+  let r := robsd_clean_x sortf rootstr keep_conf count ka lock f in
+  spec_ok_clean_age ages running (effective_keep keep_conf count) ka (fst (fst r)) f (snd r) = true.
+Proof. exact oracle_age_accepts_model. Qed.
+Print Assumptions C16_oracle_age_accepts_model.
 
 (* the second guard is needed by the ORACLE, not by the model: v/v/tmp/report
    is preserved by purge and the oracle takes its copy for a copy of v/tmp *)
 Theorem C16_oracle_nested_tmp_refuted :
   exists f, wf_tree f /\ ~ no_nested_tmp f /\
-    spec_ok_clean None 1 true 0 f (snd (robsd_clean_exec (bs "/r") 1 None true None f)) = false.
-Proof. exact oracle_nested_tmp_rejected. Qed.
+    spec_ok_clean None 1 true 0 f (snd (robsd_clean_x_exec (bs "/r") 1 None true None f)) = false.
+Proof. exact oracle_nested_tmp_rejected_x. Qed.
 Print Assumptions C16_oracle_nested_tmp_refuted.
 
 (* qsort does not matter: every sorting function gives what the driver runs *)
 Theorem C16_any_qsort : forall sortf rootstr keep_conf count ka lock f,
   sorts sortf -> wf_tree f ->
-  robsd_clean sortf rootstr keep_conf count ka lock f = robsd_clean_exec rootstr keep_conf count ka lock f.
-Proof. exact robsd_clean_any_qsort. Qed.
+  robsd_clean_x sortf rootstr keep_conf count ka lock f = robsd_clean_x_exec rootstr keep_conf count ka lock f.
+Proof. exact robsd_clean_x_any_qsort. Qed.
 Print Assumptions C16_any_qsort.
 
 (* the tables read out of util.sh are the documented ones: report, comment,
@@ -300,7 +486,7 @@ Example C16_example :
             mkfs [bs "stray"] (FFile (bs "x")); mkfs [bs "attic"] FDir; mkfs [bs "attic"; bs "note"] (FFile (bs "n"))] in
   let lock := Some (bs "/r/2024-01-02.10
 ") in
-  let after := snd (robsd_clean_exec (bs "/r") 2 None true lock f) in
+  let after := snd (robsd_clean_x_exec (bs "/r") 2 None true lock f) in
   invocations_desc f = [bs "2024-01-02.9"; bs "2024-01-02.2"; bs "2024-01-02.10"; bs "2024-01-02.1"] /\
   invocations_desc after = [bs "2024-01-02.9"; bs "2024-01-02.10"] /\
   spec_ok_clean (Some (bs "2024-01-02.10")) 2 true 0 f after = true /\
